@@ -1,6 +1,6 @@
 CONSTANTS
-  B = 16
-  M = 45
+  B = 12
+  M = 35
 INIT Init
 NEXT Next
 INVARIANTS GcdLaws InverseLaws DivLaws PowLaws JacobiLaws QRCount CRTLaws SqrtLaws BitLaws RatLaws SymLaws WindowLaws
